@@ -219,3 +219,11 @@ Theorem issubclass_transitive_refuted :
   exists a b c, issub hier_sub a b = true /\ issub hier_sub b c = true /\ issub hier_sub a c = false.
 Proof. exact issub_transitive_refuted. Qed.
 Print Assumptions issubclass_transitive_refuted.
+
+(** (A) the tie to /repo's current source: every function this property's models were transcribed from has, in the
+    tree this run is checking, the normalised source it had when the models were validated (hashes regenerated from
+    /repo into gen/Generated.v on every run; pins in gen/SourcePins.v).  A change to one of them invalidates the
+    transcription until it is re-validated. *)
+From UsimGen Require SourcePins Pin_C17.
+Theorem C17_modelled_source_unchanged : forallb SourcePins.pin_ok Pin_C17.pins = true.
+Proof. exact Pin_C17.src_unchanged. Qed.
